@@ -1,8 +1,10 @@
 #!/bin/bash
-# usage: seed_check.sh <seed-id> <check ids...>   applies /verif/seeded/<id>/patch.diff to /repo, runs the checks, undoes it
+# usage: seed_check.sh <seed-id> <check ids...>   applies /verif/seeded/<id>/patch.diff to the repository
+# (VERIF_REPO, default /repo), runs the checks, undoes it
 ID=$1; shift
-cd /verif
-git -C /repo apply /verif/seeded/$ID/patch.diff || { echo "PATCH DOES NOT APPLY"; exit 2; }
+cd "$(dirname "$0")/.."
+R="${VERIF_REPO:-/repo}"
+git -C "$R" apply "$PWD/seeded/$ID/patch.diff" || { echo "$ID PATCH DOES NOT APPLY"; exit 2; }
 for c in "$@"; do r=$(timeout 1800 ./check $c 2>&1 | grep -E "^(OK|VIOLATION)" | tail -1); echo "$ID $c: $r"; done
-git -C /repo checkout -- .
+git -C "$R" checkout -- .
 git checkout -q -- evidence 2>/dev/null
